@@ -50,6 +50,13 @@ pub mod chordal {
         pub fn parents(&self) -> &[usize] {
             ch::verif_hooks_dsu::parents(&self.0)
         }
+        pub fn ranks(&self) -> &[usize] {
+            ch::verif_hooks_dsu::ranks(&self.0)
+        }
+        /// a union-find structure in an arbitrary given state (plain data)
+        pub fn from_parts(parents: Vec<usize>, ranks: Vec<usize>) -> Self {
+            Self(ch::verif_hooks_dsu::from_parts(parents, ranks))
+        }
     }
     pub fn kruskal(E: &mut CscMatrix<isize>, num_cliques: usize) {
         ch::verif_hooks_cg::kruskal(E, num_cliques)
